@@ -25,6 +25,7 @@ import (
 
 	"github.com/getlantern/wal"
 	"github.com/getlantern/zenodb/common"
+	"github.com/golang/snappy"
 )
 
 var (
@@ -244,18 +245,30 @@ func (db *DB) VerifStreamEnd(stream string) (wal.Offset, error) {
 	}
 	for i := len(files) - 1; i >= 0; i-- {
 		name := files[i].Name()
+		compressed := strings.HasSuffix(name, ".snappy")
+		name = strings.TrimSuffix(name, ".snappy")
+		if compressed {
+			if _, statErr := os.Stat(filepath.Join(dir, name)); statErr == nil {
+				// compression of this segment is still in progress: the plain file is the complete one
+				continue
+			}
+		}
 		if strings.Contains(name, ".") {
-			return nil, fmt.Errorf("unexpected (compressed?) WAL segment %v", name)
+			return nil, fmt.Errorf("unexpected WAL segment %v", files[i].Name())
 		}
 		seq, err := strconv.ParseInt(name, 10, 64)
 		if err != nil {
 			return nil, fmt.Errorf("unexpected WAL segment %v", name)
 		}
-		f, err := os.Open(filepath.Join(dir, name))
+		f, err := os.Open(filepath.Join(dir, files[i].Name()))
 		if err != nil {
 			return nil, err
 		}
-		r := bufio.NewReaderSize(f, 1<<16)
+		var r io.Reader = bufio.NewReaderSize(f, 1<<16)
+		if compressed {
+			// segments older than the compression threshold are snappy streams of the same entries
+			r = snappy.NewReader(r)
+		}
 		position := int64(0)
 		head := make([]byte, 8)
 		for {
